@@ -55,13 +55,47 @@ for _p in ("pos", "tf(pos)"):
                 _c(f"dist({_p})", "maxd[label]"), _c(f"dist({_p})", "mean(maxd)"),
                 _c(f"dist({_p})", "mind[label]"), _c(f"dist({_p})", "mean(mind)")]
 C_ATOMS += [_c("pc", "pts[label]"), _c("pc", "0")]
+# read only under the reading "a relaxed unknown estimate's confidence bound is the mean of the list" (see READINGS)
+C_ATOMS += [_c("score", "mean(conf)")]
 
 B_CODE = {a: i for i, a in enumerate(B_ATOMS)}
 C_CODE = {a: i for i, a in enumerate(C_ATOMS)}
-EXC_CODE = {"TypeError": 1, "IndexError": 2, "AssertionError": 3, "AttributeError": 4, "KeyError": 5, "ValueError": 6}
+# C10 has no error clause: which exception CLASS rejects a malformed input (a list shorter than the label index, no bound for
+# the label, no point count ...) is not part of the property. Every exception is recorded as the one result `raise:Rejected`
+# (`PEval.FilterTable.eRejected`); the class names observed are kept in OBSERVED_EXC for the evidence. Raising where the model
+# returns (or the reverse) still differs.
+REJECTED = "Rejected"
+EXC_CODE = {REJECTED: 0}
+OBSERVED_EXC: Dict[str, int] = {}
 
 # jointly unrealisable decisions (the Lean theorem is stated for valuations avoiding them: `PEval.FilterTable.forbidden`)
 FORBIDDEN: List[List[Tuple[str, Any]]] = []  # none needed: table and model agree on every valuation
+
+# The three points the C10 text leaves open (mirror of `PEval.FilterTable.Reading` / `readings`, same order):
+#   gt_conf       "confidence (estimates) or point count and uuid (ground truth)": is a GROUND TRUTH's own confidence compared
+#                 with the threshold?  (today's code: yes)
+#   empty_all     `target_labels == []`: no label criterion (today) or nothing targeted?
+#   relaxed_mean  "unknown-labelled estimates are judged against the mean bounds": confidence bound 0 (today) or mean(conf)?
+# The per-run Lean obligation: the code's table equals the skeleton of ONE of these readings (the index found here is
+# emitted as `readingHint`; Lean re-checks it, the hint proves nothing).
+READINGS: List[Tuple[bool, bool, bool]] = [(True, True, False), (False, True, False), (True, False, False), (True, True, True),
+                                           (False, False, False), (False, True, True), (True, False, True), (False, False, True)]
+TODAY = READINGS[0]
+_CC, _C0, _CM = _c("score", "conf[label]"), _c("score", "0"), _c("score", "mean(conf)")
+_REL = [("unknown", True), ("is_gt", False), ("conf.none", False)]
+# valuations on which the readings part ways (mirror of `PEval.FilterTable.openValuations`): no witness is taken from them
+OPEN: List[List[Tuple[str, Any]]] = [
+    [("is_gt", True), ("conf.none", False), (_CC, "eq")],
+    [("is_gt", True), ("conf.none", False), (_CC, "gt")],
+    [("is_gt", True), ("conf.none", False), ("targets.none", True)],
+    [("is_gt", True), ("conf.none", False), ("conf.short", True)],
+    [("targets.empty", True)],
+    _REL + [(_C0, "lt"), ("conf.empty", True)],
+    _REL + [(_C0, "lt"), (_CM, "eq")],
+    _REL + [(_C0, "lt"), (_CM, "gt")],
+    _REL + [(_C0, "eq"), ("conf.empty", False), (_CM, "lt")],
+    _REL + [(_C0, "gt"), ("conf.empty", False), (_CM, "lt")],
+]
 
 
 # ----------------------------------------------------------------------------- symbolic inputs
@@ -404,7 +438,9 @@ STUB_TYPES = (Stub, Uuids, UuidElem)
 
 def _result_of(val, exc):
     if exc is not None:
-        return "raise:" + type(exc).__name__
+        n = type(exc).__name__
+        OBSERVED_EXC[n] = OBSERVED_EXC.get(n, 0) + 1
+        return "raise:" + REJECTED
     if val is True or val is False:
         return "ret:" + str(val)
     try:
@@ -470,16 +506,38 @@ def generate_lean() -> str:
     """text of lean/PEval/Gen/IsTarget.lean; never raises: an untranslatable source yields the marker file"""
     LAST.clear()
     try:
+        OBSERVED_EXC.clear()
         tree, info = tabulate()
+        info["exception_classes_observed"] = dict(sorted(OBSERVED_EXC.items()))
         LAST.update(tree=tree, info=info)
-        return dt.emit_lean(tree, NAMESPACE, HEADER, B_CODE, C_CODE, EXC_CODE,
-                            info="function: objects_filter._is_target_object")
+        hint = matching_reading(tree)
+        LAST["reading"] = hint
+        info["reading_of_the_open_points"] = None if hint is None else dict(zip(("gt_conf", "empty_all", "relaxed_mean"), READINGS[hint]))
+        txt = dt.emit_lean(tree, NAMESPACE, HEADER, B_CODE, C_CODE, EXC_CODE,
+                           info="function: objects_filter._is_target_object")
+        return _with_hint(txt, 0 if hint is None else hint)
     except BaseException as e:  # noqa: BLE001 - Leak, TooLarge, anything the stubs did not anticipate
         if isinstance(e, (KeyboardInterrupt, SystemExit)):
             raise
         reason = f"{type(e).__name__}: {e}"
         LAST.update(untranslatable=reason)
-        return dt.emit_untranslatable(NAMESPACE, HEADER, reason)
+        return _with_hint(dt.emit_untranslatable(NAMESPACE, HEADER, reason), 0)
+
+
+def _with_hint(txt: str, k: int) -> str:
+    end = f"\nend {NAMESPACE}\n"
+    assert txt.endswith(end)
+    return txt[:-len(end)] + ("/-- index (in `PEval.FilterTable.readings`) of the reading of the open points whose skeleton the harness found "
+                              "equal to this table; a hint, re-checked by `isTarget_table_check` -/\n"
+                              f"def readingHint : Nat := {k}\n") + end
+
+
+def matching_reading(tree) -> Optional[int]:
+    """index of the first reading whose skeleton equals the table on every valuation (None: no reading does)"""
+    for k, r in enumerate(READINGS):
+        if not dt.diff_trees(tree, model_tree(r), FORBIDDEN, limit=1):
+            return k
+    return None
 
 
 
@@ -504,14 +562,16 @@ def _ret(b):
 
 
 def _err(n):
-    return _leaf("raise:" + n)
+    return _leaf("raise:" + REJECTED)
 
 
 def _pname(tf):
     return "tf(pos)" if tf else "pos"
 
 
-def model_tree():
+def model_tree(reading=TODAY):
+    gt_conf, empty_all, relaxed_mean = reading
+
     def t_use(k):
         return _askB("unknown", lambda un: k(False) if not un else
                      _askB("is_gt", lambda g: k(False) if g else
@@ -519,9 +579,25 @@ def model_tree():
                                  _askB("targets.has_unknown", lambda hu: k(not hu)))))
 
     def t_label(u, k):
+        def rest():
+            return k(True) if u else _askB("label_in_targets", lambda li: k(li))
+
+        if not empty_all:
+            return _askB("targets.none", lambda tn: k(True) if tn else rest())
         return _askB("targets.none", lambda tn: k(True) if tn else
-                     _askB("targets.empty", lambda te: k(True) if te else
-                           (k(True) if u else _askB("label_in_targets", lambda li: k(li)))))
+                     _askB("targets.empty", lambda te: k(True) if te else rest()))
+
+    def t_conf(u, ok, k):
+        def st():
+            if relaxed_mean:
+                return t_stage(u, ok, "conf", _CC, _CM, True, ("lt",), k)
+            return t_stage(u, ok, "conf", _CC, _C0, False, ("lt",), k)
+
+        if gt_conf:
+            return st()
+        if not ok:
+            return k(ok)
+        return _askB("is_gt", lambda g: k(ok) if g else st())
 
     def t_attr(u, ok, k):
         return _askB("ignore.none", lambda n: k(ok) if n else (k(ok) if u else _askB("attr_hit", lambda h: k(ok and not h))))
@@ -594,7 +670,7 @@ def model_tree():
 
     return _askB("fp", lambda fp: _ret(True) if fp else
                  t_use(lambda u: t_label(u, lambda ok0: t_attr(u, ok0, lambda ok1:
-                 t_stage(u, ok1, "conf", _c("score", "conf[label]"), _c("score", "0"), False, ("lt",), lambda ok2:
+                 t_conf(u, ok1, lambda ok2:
                  t_position(lambda pos: t_range(u, ok2, pos, lambda ok3: t_uuid(ok3, lambda ok4: _ret(ok4)))))))))
 
 
@@ -605,7 +681,19 @@ def table_disagreements(limit=400, per_class=8):
     if "tree" not in LAST:
         return []
     if "diff" not in LAST:
-        LAST["diff"] = dt.diff_trees(LAST["tree"], model_tree(), FORBIDDEN, limit=limit, per_class=per_class)
+        if LAST.get("reading") is not None:
+            LAST["diff"] = []  # the table IS the skeleton of one reading of the open points
+            return LAST["diff"]
+        # witnesses only from valuations on which all readings agree (inside the property's quantifier) ...
+        LAST["diff"] = dt.diff_trees(LAST["tree"], model_tree(TODAY), OPEN, limit=limit, per_class=per_class)
+        if not LAST["diff"]:
+            # ... the table differs from every reading, but only on the open valuations: the closest reading's differences
+            best = None
+            for r in READINGS:
+                d = dt.diff_trees(LAST["tree"], model_tree(r), FORBIDDEN, limit=limit, per_class=per_class)
+                if best is None or len(d) < len(best):
+                    best = d
+            LAST["diff"] = best or []
         # witnesses whose two results are both ordinary returns first (a kept/removed difference is the property itself)
         LAST["diff"].sort(key=lambda d: (not (d[1].startswith("ret:") and d[2].startswith("ret:")), len(d[0])))
     return LAST["diff"]
